@@ -62,7 +62,7 @@ CHECKS = {
     "C08": {
         "scenarios": [{"name": "malformed"}, {"name": "dups"}, {"name": "snapshots"}, {"name": "avgwindow"}, {"name": "general", "tier": "thorough"}],
         "accept": ["liveness:", "dups:"],
-        "technique": "Lean: every model function total (termination checked), staking glue never panics, repeated entry hashes are skipped, an empty block always applies; entries that do not validate are skipped (a whole entry block of them is a no-op); transfer_entry_never_fails: no transfer-only entry (any shape, funded or not) can fail its step of ApplyTransactionBlock — recorded, then applied or rejected (block_total_partial for the transfer class); HistOK (every history row belongs to a recorded batch) along every chain, hence after ANY chain no entry block of transfer-only and invalid entries can fail (harmless_tx_block_never_fails_after_any_chain); executing a held batch of any kind never fails when the block has rates (held_batch_execution_never_fails: applied / rejected with a status / dropped / skipped); regenerated swallow/pool-read lists. Tie: blocks with malformed / oversized / truncated / duplicated entries on all three chains on reachable ledgers, real grader libraries, lock-step; well-formed batches built to overdraw through a change output; snapshot heights whose rate set has holes (held assets or pUSD recorded at 0); each block must apply",
+        "technique": "Lean: every model function total (termination checked), staking glue never panics, repeated entry hashes are skipped, an empty block always applies; entries that do not validate are skipped (a whole entry block of them is a no-op); transfer_entry_never_fails: no transfer-only entry (any shape, funded or not) can fail its step of ApplyTransactionBlock — recorded, then applied or rejected (block_total_partial for the transfer class); HistOK (every history row belongs to a recorded batch) along every chain, HoldOK (every held entry is recorded) likewise; hence after ANY chain no entry block of the transaction chain can fail on arrival — invalid entries are skipped, conversion entries recorded and held, transfer-only entries applied or rejected (harmless_tx_block_never_fails_after_any_chain, every_entry_is_harmless); executing a held batch of any kind never fails when the block has rates (held_batch_execution_never_fails: applied / rejected with a status / dropped / skipped); regenerated swallow/pool-read lists. Tie: blocks with malformed / oversized / truncated / duplicated entries on all three chains on reachable ledgers, real grader libraries, lock-step; well-formed batches built to overdraw through a change output; snapshot heights whose rate set has holes (held assets or pUSD recorded at 0); each block must apply",
         "assumptions": [ORACLES, "a panic inside the grading libraries is outside the model (seen by the monitor only)", "SQLite lock escalation between the block transaction and pool reads is not modelled (known finding)"],
         "design_ref": "DESIGN.md §7 C08",
     },
